@@ -320,7 +320,7 @@ class FuncFacts:
         out = []
         for a in fs:
             toks = tokens(a[1])
-            if a[0] in ('same', 'differ'):
+            if a[0] in ('same', 'differ', 'flagdef'):
                 toks = toks | tokens(a[2])
             if toks & writes or toks & names:
                 continue
@@ -331,6 +331,10 @@ class FuncFacts:
         if value is None or not isinstance(target, (ast.Attribute, ast.Name)):
             return set()
         if isinstance(target, ast.Name):
+            # ``flag = isinstance(x, T)`` / ``flag = a is None or b``: the local stands for the predicate until it or an operand is re-bound
+            v = strip_cast(value)
+            if self._pure_predicate(v) and target.id not in {x.id for x in ast.walk(v) if isinstance(x, ast.Name)}:
+                return {('flagdef', target.id, norm(v))}
             return set()
         k = self.canon.key(target)
         v = strip_cast(value)
@@ -345,6 +349,33 @@ class FuncFacts:
         if isinstance(v, ast.Call) and self.is_future_ctor(v):
             return {('fresh', k), ('F', f'{k}.done()'), ('notnone', k), ('T', k)}
         return set()
+
+    @staticmethod
+    def _pure_predicate(e: ast.AST) -> bool:
+        if isinstance(e, ast.BoolOp):
+            return all(FuncFacts._pure_predicate(v) for v in e.values)
+        if isinstance(e, ast.UnaryOp) and isinstance(e.op, ast.Not):
+            return FuncFacts._pure_predicate(e.operand)
+        if isinstance(e, ast.Compare):
+            return all(isinstance(o, (ast.Is, ast.IsNot, ast.Eq, ast.NotEq)) for o in e.ops) and all(isinstance(x, (ast.Name, ast.Constant)) for x in [e.left] + e.comparators)
+        if isinstance(e, ast.Call) and isinstance(e.func, ast.Name) and e.func.id == 'isinstance' and len(e.args) == 2 and not e.keywords:
+            return isinstance(e.args[0], ast.Name)
+        return False
+
+    @staticmethod
+    def subst_flags(e: ast.expr, fs) -> ast.expr:
+        """``e`` with every local that currently stands for a predicate (a 'flagdef' fact) replaced by that predicate."""
+        defs = {a[1]: a[2] for a in (fs or ()) if a[0] == 'flagdef'}
+        if not defs or not any(isinstance(x, ast.Name) and x.id in defs for x in ast.walk(e)):
+            return e
+        import copy as _copy
+
+        class T(ast.NodeTransformer):
+            def visit_Name(self, node: ast.Name):
+                if isinstance(node.ctx, ast.Load) and node.id in defs:
+                    return ast.parse(defs[node.id], mode='eval').body
+                return node
+        return T().visit(_copy.deepcopy(e))
 
     def is_future_ctor(self, call: ast.Call) -> bool:
         t = self.eng.calls.resolve_call(self.func, call)
@@ -394,7 +425,7 @@ class FuncFacts:
         res['uncaught'] = base
         res['handler'] = base
         if n.kind == 'test':
-            test = a.test  # type: ignore[union-attr]
+            test = self.subst_flags(a.test, fs)  # type: ignore[union-attr]
             res['true'] = base | frozenset(self.cond_atoms(test, True))
             res['false'] = base | frozenset(self.cond_atoms(test, False))
             res['*'] = base
